@@ -3,6 +3,7 @@ package rules
 import (
 	"go/token"
 	"go/types"
+	"sort"
 	"strings"
 
 	"golang.org/x/tools/go/ssa"
@@ -29,7 +30,8 @@ func fieldLoaded(v ssa.Value) string {
 func c51(r *core.Run) {
 	r.Explanation = "Decided clauses (narrow): the collections that keep two structures in step update them together — (R1) every method of bimap.BiMap performs as many insertions and as many deletions on `forward` as on `backward`; " +
 		"(R2) every method of orderedmap.OrderedMap that inserts into / deletes from / clears the `pairs` index performs the matching operation on the ordered `list` (PushBack / Remove / Init) the same number of times; " +
-		"(R3) interval tree: every function that re-links a node (stores to node.left / node.right) recomputes that node's subtree size and max endpoint (fix, or a rotation that fixes its receiver) before it returns."
+		"(R3) interval tree: every function that re-links a node (stores to node.left / node.right) recomputes that node's subtree size and max endpoint (fix, or a rotation that fixes its receiver) before it returns; " +
+		"(R4) the interval tree's search functions prune the left subtree under the same class of comparison; (R5) BiMap.Insert looks up the stale entries of both directions before it inserts."
 	r.NotDecided = "model equivalence over operation sequences (lookups, iteration order, query results); the persistent set's parent chain; comparison logic such as max3 and Interval.Compare."
 	w := r.W
 
@@ -205,6 +207,111 @@ func c51(r *core.Run) {
 		}
 	}
 	r.Floor("R3.augment", 4)
+
+	// R4 sibling searches prune alike: every test of a left subtree's max endpoint against the query
+	// (x.left.max.Compare(q) op 0) in the interval tree's search functions belongs to one class — strict (`< 0` to skip,
+	// `>= 0` to descend) or non-strict; intervals are closed, so a subtree whose max equals the query's lower end may still match
+	classes := map[string][]string{}
+	nprune := 0
+	for _, fn := range w.SrcFuncsIn("common/intervalst") {
+		core.Instrs(fn, true, func(in ssa.Instruction) {
+			bo, ok := in.(*ssa.BinOp)
+			if !ok {
+				return
+			}
+			var call ssa.Value
+			if c, isC := bo.Y.(*ssa.Const); isC && c.Value != nil && c.Value.ExactString() == "0" {
+				call = bo.X
+			} else {
+				return
+			}
+			cc, ok := call.(*ssa.Call)
+			if !ok {
+				return
+			}
+			name := ""
+			if cc.Call.IsInvoke() {
+				name = cc.Call.Method.Name()
+			} else if o := core.Callee(cc); o != nil {
+				name = o.Name()
+			}
+			if name != "Compare" {
+				return
+			}
+			var recv ssa.Value
+			if cc.Call.IsInvoke() {
+				recv = cc.Call.Value
+			} else if len(cc.Call.Args) > 0 {
+				recv = cc.Call.Args[0]
+			}
+			lv := core.OriginLeaves(recv)
+			if !strings.Contains(lv, ".max") || !strings.Contains(lv, ".left") {
+				return
+			}
+			class := ""
+			switch bo.Op {
+			case token.LSS, token.GEQ:
+				class = "strict (< 0 skips, >= 0 descends)"
+			case token.LEQ, token.GTR:
+				class = "non-strict (<= 0 skips, > 0 descends)"
+			default:
+				class = "equality"
+			}
+			nprune++
+			classes[class] = append(classes[class], core.SSAKey(fn))
+		})
+	}
+	if nprune == 0 {
+		r.Undecided("R4.prune", "common/intervalst", "no left-subtree pruning test found")
+	} else {
+		var desc []string
+		for k, v := range classes {
+			sort.Strings(v)
+			desc = append(desc, k+": "+strings.Join(uniq(v), ","))
+		}
+		sort.Strings(desc)
+		r.Check(len(classes) == 1, "R4.prune", "common/intervalst: left-subtree pruning tests agree", 0, itoa(nprune)+" tests, all "+desc[0],
+			"the search functions prune the left subtree under different comparisons ("+strings.Join(desc, " | ")+"): one of them skips (or visits) a subtree whose max endpoint equals the query, so the siblings disagree on touching intervals")
+	}
+	r.Floor("R4.prune", 1)
+
+	// R5 BiMap.Insert examines both stale entries before inserting: the lookups in `forward` (old value of the key) and in
+	// `backward` (old key of the value) both dominate the insertions — if one lookup is skipped when the other hit, a stale
+	// entry survives an insert that conflicts on both sides
+	for _, fn := range methodsOf("common/bimap", "BiMap") {
+		if fn.Name() != "Insert" {
+			continue
+		}
+		var ups []ssa.Instruction
+		look := map[string][]ssa.Instruction{}
+		core.Instrs(fn, false, func(in ssa.Instruction) {
+			switch x := in.(type) {
+			case *ssa.MapUpdate:
+				ups = append(ups, in)
+			case *ssa.Lookup:
+				if f := fieldLoaded(x.X); f != "" {
+					look[f] = append(look[f], in)
+				}
+			}
+		})
+		ok := len(ups) > 0
+		for _, f := range []string{"forward", "backward"} {
+			for _, u := range ups {
+				dom := false
+				for _, l := range look[f] {
+					if core.Dominates(l, u) {
+						dom = true
+					}
+				}
+				if !dom {
+					ok = false
+				}
+			}
+		}
+		r.Check(ok, "R5.evict", core.SSAKey(fn)+": both stale entries are looked up before the insertion", fn.Pos(), "lookups in forward and backward dominate the insertions",
+			"an insertion is reachable without having looked up the stale entry of the other direction (the two eviction tests were merged into if/else-if): an insert that conflicts on both the key and the value leaves a stale entry behind")
+	}
+	r.Floor("R5.evict", 1)
 }
 
 // originFn maps an instantiation of a generic function to its generic origin.
